@@ -89,7 +89,7 @@ def emit(insts):
 def build_instances(ctx):
     quick = ctx.quick()
     insts = []
-    per_rep_grid = 12 if quick else 10 ** 9
+    per_rep_grid = 28 if quick else 10 ** 9
     for rep in reps.INT_REPS:
         g = grid_factors(rep)
         # deterministic thinning for quick: always keep the structurally important ones, rotate the rest by seed
@@ -103,7 +103,7 @@ def build_instances(ctx):
         for n, d in g:
             insts.append({"rep": rep, "n": n, "d": d, "src": "grid"})
     ctx.bump("grid_instances", len(insts))
-    rnd = hyp.collect(ctx, random_instance(), 80 if quick else 600)
+    rnd = hyp.collect(ctx, random_instance(), 300 if quick else 1500)
     nr = 0
     for r in rnd:
         if reps.conversion_compiles(r["rep"], r["n"], r["d"]):
@@ -148,7 +148,7 @@ def run(ctx, which):
     canaries = [{"rep": "int16_t", "n": 3, "d": 2, "id": "canary_int", "canary": True, "permit": False},
                 {"rep": "double", "n": 1000, "d": 1, "id": "canary_float", "canary": True}]
     shards[0] = canaries + shards[0]
-    vr = ValueRun(ctx, rc_cases=(3000 if ctx.quick() else 40000),
+    vr = ValueRun(ctx, rc_cases=(10000 if ctx.quick() else 100000),
                   extra_args=(["--thorough"] if not ctx.quick() else []))
     vr.run([("s%02d" % k, emit(s), [i["id"] for i in s]) for k, s in enumerate(shards) if s])
     by_id = {i["id"]: i for i in insts + canaries}
